@@ -30,6 +30,7 @@ use smartcore::ensemble::random_forest_classifier::{
 use smartcore::ensemble::random_forest_regressor::{
     RandomForestRegressor, RandomForestRegressorParameters,
 };
+use smartcore::api::{Predictor, SupervisedEstimator};
 use smartcore::linalg::naive::dense_matrix::DenseMatrix;
 use smartcore::tree::decision_tree_classifier::{DecisionTreeClassifier, SplitCriterion};
 use smartcore::tree::decision_tree_regressor::DecisionTreeRegressor;
@@ -123,6 +124,7 @@ fn observe(
     n_train: usize,
     n_all: usize,
     y_slack: i64,
+    relative: bool,
     tree_pred: &dyn Fn(&Value) -> Result<Vec<f64>, String>,
     pred: Result<Vec<f64>, String>,
     pred_again: Result<Vec<f64>, String>,
@@ -148,15 +150,65 @@ fn observe(
         ),
         _ => (false, vec![]),
     };
+    let tree_depth: i64 = trees.iter().map(|t| t.get("depth").and_then(|d| d.as_i64()).unwrap_or(0)).max().unwrap_or(0);
+    let raw_tp: Vec<Result<Vec<f64>, String>> = trees.iter().map(|t| tree_pred(t)).collect();
+    // Per-row power-of-two scale of the regression values ("relative" families only, whose
+    // values span hundreds of binary orders of magnitude): row r is recorded as
+    // round(v * 2^(16 - rowExp[r])) with rowExp[r] = (largest binary exponent among the
+    // finite values of that row) - 8.  Multiplying by a power of two is exact, and "is the
+    // mean of" is invariant under it; clauses that compare with the targets are evaluated by
+    // the specification on rows with rowExp = 0 only.
+    let mut row_exp: Vec<i64> = vec![0; n_all];
+    if relative && kind == "reg" {
+        for (r, re) in row_exp.iter_mut().enumerate() {
+            let mut vals: Vec<f64> = Vec::new();
+            for t in raw_tp.iter() {
+                if let Ok(v) = t {
+                    if r < v.len() {
+                        vals.push(v[r]);
+                    }
+                }
+            }
+            if let Ok(v) = &pred {
+                if r < v.len() {
+                    vals.push(v[r]);
+                }
+            }
+            if let Ok(Ok(v)) = &oob {
+                if r < v.len() {
+                    vals.push(v[r]);
+                }
+            }
+            let e = vals.iter().filter(|v| v.is_finite() && **v != 0.0).map(|v| bin_exp(*v)).max();
+            *re = e.map(|e| e - 8).unwrap_or(0);
+        }
+    }
+    let proj_rows = |v: &[f64]| -> (bool, Vec<i64>, Vec<bool>) {
+        if kind == "cls" {
+            return proj_vec(kind, v);
+        }
+        let mut all = true;
+        let mut vals = Vec::with_capacity(v.len());
+        let mut fl = Vec::with_capacity(v.len());
+        for (r, &x) in v.iter().enumerate() {
+            let e = if r < row_exp.len() { row_exp[r] } else { 0 };
+            let scaled = if e == 0 { x } else { x * (2.0f64).powi(-(e as i32)) };
+            let (ok, q) = proj_reg(scaled);
+            all &= ok;
+            vals.push(q);
+            fl.push(ok);
+        }
+        (all, vals, fl)
+    };
     let mut tp_ok = true;
     let mut tp: Vec<Vec<i64>> = Vec::new();
     let mut tp_bits: Vec<u8> = Vec::new();
-    for t in trees.iter() {
-        match tree_pred(t) {
+    for t in raw_tp.iter() {
+        match t {
             Ok(v) => {
-                let (ok, q, _) = proj_vec(kind, &v);
+                let (ok, q, _) = proj_rows(v);
                 tp_ok &= ok;
-                tp_bits.extend(bits_of(&v));
+                tp_bits.extend(bits_of(v));
                 tp.push(q);
             }
             Err(_) => {
@@ -172,7 +224,7 @@ fn observe(
     }
     let (pred_ok, predq, pred_bits) = match &pred {
         Ok(v) => {
-            let (ok, q, _) = proj_vec(kind, v);
+            let (ok, q, _) = proj_rows(v);
             (ok, q, bits_of(v))
         }
         Err(m) => (false, vec![], m.as_bytes().to_vec()),
@@ -186,7 +238,7 @@ fn observe(
     let pd2 = digest_of(&[&pred_again_bits]);
     let (oob_status, oobq, oob_fin, oob_bits) = match &oob {
         Ok(Ok(v)) => {
-            let (_, q, f) = proj_vec(kind, v);
+            let (_, q, f) = proj_rows(v);
             ("ok", q, f, bits_of(v))
         }
         Ok(Err(m)) => ("err", vec![], vec![], m.as_bytes().to_vec()),
@@ -203,11 +255,12 @@ fn observe(
     let fdigest = digest_of(&[body.as_bytes(), &tp_bits, &pred_bits, oob_status.as_bytes(), &oob_bits]);
     let obs = json!({
         "kind": kind, "nTrees": n_trees_param, "trees": trees.len(),
-        "nTrain": n_train, "nAll": n_all, "y": yq, "ySlack": y_slack,
+        "nTrain": n_train, "nAll": n_all, "y": yq, "ySlack": y_slack, "rowExp": row_exp,
         "keep": keep, "hasMask": has_mask, "mask": mask,
         "tpOk": tp_ok, "treePred": tp,
         "predOk": pred_ok, "pred": predq, "predDigest": pd1, "predDigest2": pd2,
         "oobStatus": oob_status, "oobFin": oob_fin, "oob": oobq,
+        "treeDepth": tree_depth,
     });
     Observed { obs, digest, fdigest }
 }
@@ -237,6 +290,7 @@ fn observe_cls(
     xtr: &[Vec<f64>],
     xall: &[Vec<f64>],
     y: &[f64],
+    via_trait: bool,
 ) -> Observed {
     let dump = serde_json::to_value(f).expect("serde dump");
     let text = serde_json::to_string(f).expect("serde dump");
@@ -252,10 +306,18 @@ fn observe_cls(
         };
         res_vec(guard(|| tree.predict(&xa)))
     };
-    let pred = res_vec(guard(|| f.predict(&xa)));
-    let pred_again = res_vec(guard(|| f.predict(&xa)));
+    // both public entry points: the inherent method and the api::Predictor trait method
+    let ask = || {
+        if via_trait {
+            <RandomForestClassifier<f64> as Predictor<DenseMatrix<f64>, Vec<f64>>>::predict(f, &xa)
+        } else {
+            f.predict(&xa)
+        }
+    };
+    let pred = res_vec(guard(ask));
+    let pred_again = res_vec(guard(ask));
     let oob = res_oob(guard(|| f.predict_oob(&xt)));
-    observe("cls", &dump, &text, n_trees, keep, y, xtr.len(), xall.len(), 0, &tree_pred, pred, pred_again, oob)
+    observe("cls", &dump, &text, n_trees, keep, y, xtr.len(), xall.len(), 0, false, &tree_pred, pred, pred_again, oob)
 }
 
 fn observe_reg(
@@ -265,6 +327,8 @@ fn observe_reg(
     xtr: &[Vec<f64>],
     xall: &[Vec<f64>],
     y: &[f64],
+    relative: bool,
+    via_trait: bool,
 ) -> Observed {
     let dump = serde_json::to_value(f).expect("serde dump");
     let text = serde_json::to_string(f).expect("serde dump");
@@ -280,12 +344,19 @@ fn observe_reg(
         };
         res_vec(guard(|| tree.predict(&xa)))
     };
-    let pred = res_vec(guard(|| f.predict(&xa)));
-    let pred_again = res_vec(guard(|| f.predict(&xa)));
+    let ask = || {
+        if via_trait {
+            <RandomForestRegressor<f64> as Predictor<DenseMatrix<f64>, Vec<f64>>>::predict(f, &xa)
+        } else {
+            f.predict(&xa)
+        }
+    };
+    let pred = res_vec(guard(ask));
+    let pred_again = res_vec(guard(ask));
     let oob = res_oob(guard(|| f.predict_oob(&xt)));
     // targets that are multiples of 2^-16 are recorded exactly; anything else is rounded
     let y_slack = if y.iter().all(|v| (v * FX).fract() == 0.0) { 0 } else { 1 };
-    observe("reg", &dump, &text, n_trees, keep, y, xtr.len(), xall.len(), y_slack, &tree_pred, pred, pred_again, oob)
+    observe("reg", &dump, &text, n_trees, keep, y, xtr.len(), xall.len(), y_slack, relative, &tree_pred, pred, pred_again, oob)
 }
 
 // ---------------------------------------------------------------------------------------------
@@ -311,6 +382,11 @@ struct Data {
     x: Vec<Vec<f64>>,
     xq: Vec<Vec<f64>>,
     y: Vec<f64>,
+    /// regression values span many binary orders of magnitude: record them with a per-row
+    /// power-of-two scale (see `observe`)
+    relative: bool,
+    /// generator family (description of the input only)
+    family: &'static str,
 }
 
 fn crit_of(c: usize) -> SplitCriterion {
@@ -322,7 +398,7 @@ fn crit_of(c: usize) -> SplitCriterion {
 }
 
 /// status, digest, observation of one real fit
-fn fit_once(d: &Data, s: &Setting, seed: u64) -> (&'static str, String, String, Value) {
+fn fit_once(d: &Data, s: &Setting, seed: u64, via_trait: bool) -> (&'static str, String, String, Value) {
     let xm = mat(&d.x);
     let mut xall = d.x.clone();
     xall.extend(d.xq.iter().cloned());
@@ -337,9 +413,20 @@ fn fit_once(d: &Data, s: &Setting, seed: u64) -> (&'static str, String, String, 
             keep_samples: s.keep,
             seed,
         };
-        match guard(|| RandomForestClassifier::fit(&xm, &d.y, p)) {
+        let fit = || {
+            if via_trait {
+                <RandomForestClassifier<f64> as SupervisedEstimator<
+                    DenseMatrix<f64>,
+                    Vec<f64>,
+                    RandomForestClassifierParameters,
+                >>::fit(&xm, &d.y, p)
+            } else {
+                RandomForestClassifier::fit(&xm, &d.y, p)
+            }
+        };
+        match guard(fit) {
             Ok(Ok(f)) => {
-                let o = observe_cls(&f, s.n_trees, s.keep, &d.x, &xall, &d.y);
+                let o = observe_cls(&f, s.n_trees, s.keep, &d.x, &xall, &d.y, via_trait);
                 ("ok", o.digest, o.fdigest, o.obs)
             }
             Ok(Err(e)) => ("err", format!("err:{}", e), String::from("err"), json!({})),
@@ -355,9 +442,20 @@ fn fit_once(d: &Data, s: &Setting, seed: u64) -> (&'static str, String, String, 
             keep_samples: s.keep,
             seed,
         };
-        match guard(|| RandomForestRegressor::fit(&xm, &d.y, p)) {
+        let fit = || {
+            if via_trait {
+                <RandomForestRegressor<f64> as SupervisedEstimator<
+                    DenseMatrix<f64>,
+                    Vec<f64>,
+                    RandomForestRegressorParameters,
+                >>::fit(&xm, &d.y, p)
+            } else {
+                RandomForestRegressor::fit(&xm, &d.y, p)
+            }
+        };
+        match guard(fit) {
             Ok(Ok(f)) => {
-                let o = observe_reg(&f, s.n_trees, s.keep, &d.x, &xall, &d.y);
+                let o = observe_reg(&f, s.n_trees, s.keep, &d.x, &xall, &d.y, d.relative, via_trait);
                 ("ok", o.digest, o.fdigest, o.obs)
             }
             Ok(Err(e)) => ("err", format!("err:{}", e), String::from("err"), json!({})),
@@ -408,14 +506,16 @@ fn class_sizes(kind: &str, y: &[f64]) -> Vec<usize> {
 fn emit_fit(out: &mut Out, run: i64, full: bool, d: &Data, s: &Setting, seed: u64) {
     let base = base_key(d, s);
     let key = format!("{}#{}", base, seed);
-    let (status, digest, fdigest, obs) = fit_once(d, s, seed);
+    // first fits use the inherent fit/predict, later fits of the same key the api traits
+    // (SupervisedEstimator::fit, Predictor::predict): both entry points must agree
+    let (status, digest, fdigest, obs) = fit_once(d, s, seed, !full);
     if full {
         let p = d.x[0].len();
         out.emit(json!({
             "run": run, "ev": "ForestFit", "key": key, "base": base, "digest": digest, "fdigest": fdigest, "status": status,
             "in": {"kind": s.kind, "n": d.x.len(), "p": p, "xDen": d.xden, "X": ints(&d.x, d.xden), "Xq": ints(&d.xq, d.xden),
                    "y": proj_vec(s.kind, &d.y).1,
-                   "classSizes": class_sizes(s.kind, &d.y),
+                   "classSizes": class_sizes(s.kind, &d.y), "relative": d.relative, "family": d.family,
                    "yHex": d.y.iter().map(|v| format!("{:016x}", v.to_bits())).collect::<Vec<String>>(),
                    "nTrees": s.n_trees, "m": s.m.map(|v| v as i64).unwrap_or(-1),
                    "maxDepth": s.max_depth.map(|v| v as i64).unwrap_or(-1),
@@ -550,7 +650,7 @@ fn gen_data(r: &mut StdRng, id: usize, kind: &'static str, n: usize, p: usize, d
             }
         }
     }
-    Data { id, xden, x, xq, y }
+    Data { id, xden, x, xq, y, relative: false, family: "random" }
 }
 
 /// Systematic family: a classification set of exactly `n` rows whose classes have exactly the
@@ -577,7 +677,70 @@ fn gen_profile_data(r: &mut StdRng, id: usize, n: usize, sizes: &[usize], distin
         }
     }
     assert_eq!(pos, n);
+    d.family = "profile";
     d
+}
+
+/// Deep-structure family.  One distinct-valued feature (a permutation of 0..n-1, plus an
+/// optional second noise feature) and
+///  * reg: targets growing geometrically along it, y = ratio^(x - n): every greedy split
+///    peels off only the largest remaining target, so member trees are chains about as deep
+///    as they have distinct rows; values are recorded with a per-row scale (`relative`);
+///  * cls: labels alternating along it, which no balanced split can separate either.
+fn gen_deep_data(r: &mut StdRng, id: usize, kind: &'static str, n: usize) -> Data {
+    let p = r.gen_range(1..=2);
+    let mut perm: Vec<usize> = (0..n).collect();
+    perm.shuffle(r);
+    let mut x = vec![vec![0.0f64; p]; n];
+    for i in 0..n {
+        x[i][0] = perm[i] as f64;
+        if p == 2 {
+            x[i][1] = r.gen_range(0..=3) as f64;
+        }
+    }
+    let mut xq = Vec::new();
+    for _ in 0..r.gen_range(4..=12) {
+        let mut row = x[r.gen_range(0..n)].clone();
+        row[0] += [0.5, -0.5, 0.25, 1000.0, -1000.0][r.gen_range(0..5)];
+        xq.push(row);
+    }
+    let mut y = vec![0.0f64; n];
+    if kind == "reg" {
+        let ratio = [4.0f64, 3.0, 8.0][r.gen_range(0..3)];
+        let sign = if r.gen_bool(0.5) { 1.0 } else { -1.0 };
+        for i in 0..n {
+            y[i] = sign * ratio.powi(perm[i] as i32 - n as i32);
+        }
+    } else {
+        let k = r.gen_range(2..=3);
+        let mut pool: Vec<i64> = (-9..=20).collect();
+        pool.shuffle(r);
+        for i in 0..n {
+            y[i] = pool[perm[i] % k] as f64;
+        }
+    }
+    Data { id, xden: 4, x, xq, y, relative: kind == "reg", family: "deep" }
+}
+
+/// more query rows (batch predict of a given length)
+fn pad_queries(r: &mut StdRng, d: &mut Data, nq: usize) {
+    let n = d.x.len();
+    while d.xq.len() < nq {
+        let mut row = d.x[r.gen_range(0..n)].clone();
+        for v in row.iter_mut() {
+            if r.gen_bool(0.3) {
+                *v += (r.gen_range(-2..=2) as f64) / d.xden as f64;
+            }
+        }
+        d.xq.push(row);
+    }
+}
+
+fn emit_quad(out: &mut Out, run: i64, d: &Data, s: &Setting, s1: u64, s2: u64) {
+    emit_fit(out, run, true, d, s, s1);
+    emit_fit(out, run, true, d, s, s2);
+    emit_fit(out, run, false, d, s, s1);
+    emit_fit(out, run, false, d, s, s2);
 }
 
 fn gen_setting(r: &mut StdRng, kind: &'static str, p: usize, unlimited: bool, big: bool) -> Setting {
@@ -631,6 +794,7 @@ fn gen_fits(path: &str) {
     let cases = if th { 10000 } else { 3000 };
     let mut run = 0i64;
     let mut early: Vec<(Data, Setting, u64)> = Vec::new();
+    let mut asm_cases: Vec<Value> = Vec::new();
     for c in 0..cases {
         run += 1;
         let kind: &'static str = if c % 2 == 0 { "cls" } else { "reg" };
@@ -696,10 +860,112 @@ fn gen_fits(path: &str) {
             emit_fit(&mut out, run, false, &d, &s, s2);
         }
     }
+    let mut next_id = cases + run as usize + 1;
+    // few-tree forests with kept samples: with 1..4 trees some training row is in every
+    // bootstrap sample (no out-of-bag tree) and others are out-of-bag for all but one
+    for t in 1..=4usize {
+        for rep in 0..(if th { 24 } else { 8 }) {
+            run += 1;
+            next_id += 1;
+            let kind: &'static str = if rep % 2 == 0 { "reg" } else { "cls" };
+            let n = r.gen_range(4..=30);
+            let p = r.gen_range(1..=4);
+            let distinct = r.gen_bool(0.5);
+            let mut d = gen_data(&mut r, next_id, kind, n, p, distinct);
+            d.family = "few";
+            let unlimited = distinct && r.gen_bool(0.5);
+            let mut s = gen_setting(&mut r, kind, p, unlimited, false);
+            s.n_trees = t;
+            s.keep = true;
+            let s1 = pick_seed(&mut r);
+            emit_quad(&mut out, run, &d, &s, s1, s1.wrapping_add(1 + rep as u64));
+        }
+    }
+    // deep member trees (chains far deeper than 64 levels), default limits
+    let deep_sizes: Vec<usize> = if th { vec![100, 110, 120, 140, 160, 200, 260] } else { vec![110, 120, 160, 200] };
+    for &n in deep_sizes.iter() {
+        for kind in ["reg"].iter() {
+            for rep in 0..(if th { 4 } else { 2 }) {
+                run += 1;
+                next_id += 1;
+                let d = gen_deep_data(&mut r, next_id, kind, n);
+                let p = d.x[0].len();
+                let s = Setting {
+                    kind,
+                    n_trees: r.gen_range(1..=3),
+                    // every feature is a split candidate at every node (with m < p a node
+                    // whose drawn feature is constant becomes a leaf and the chain ends early)
+                    m: Some(p),
+                    max_depth: None,
+                    msl: 1,
+                    mss: 2,
+                    crit: r.gen_range(0..3),
+                    keep: true,
+                };
+                let s1 = pick_seed(&mut r);
+                emit_quad(&mut out, run, &d, &s, s1, s1.wrapping_add(7 + rep as u64));
+            }
+        }
+    }
+    // assembled deep chains: forests put together through serde whose member trees are
+    // decision chains with one level per row (as in the spec -> impl leg, but 70..140 levels
+    // deep and with random votes / values), classifier and regressor
+    for rep in 0..(if th { 40 } else { 12 }) {
+        run += 1;
+        let kind = if rep % 2 == 0 { "reg" } else { "cls" };
+        let n = r.gen_range(70..=140usize);
+        let t_n = r.gen_range(1..=4usize);
+        let keep = rep % 4 != 3;
+        let labels: Vec<i64> = vec![-3, 4, 10];
+        let val = |r: &mut StdRng| -> i64 {
+            if kind == "cls" { labels[r.gen_range(0..3)] } else { r.gen_range(-100..=100) * 65536 / 4 }
+        };
+        let mut y: Vec<i64> = (0..n).map(|_| val(&mut r)).collect();
+        if kind == "cls" {
+            y[0] = labels[0];
+            y[1] = labels[1];
+            y[2] = labels[2];
+        } else {
+            y[0] = -100 * 65536;
+            y[1] = 100 * 65536;
+        }
+        let tp: Vec<Vec<i64>> = (0..t_n)
+            .map(|_| (0..n).map(|i| if r.gen_bool(0.6) { y[i] } else { val(&mut r) }).collect())
+            .collect();
+        let mask: Vec<Vec<bool>> = (0..t_n).map(|_| (0..n).map(|_| r.gen_bool(0.63)).collect()).collect();
+        asm_cases.push(json!({"kind": kind, "nTrain": n, "nTrees": t_n, "keep": keep, "y": y,
+                              "treePred": tp, "mask": if keep { json!(mask) } else { json!([]) }}));
+    }
+    // size ladder: row counts and batch lengths around internal block sizes
+    let mut ladder: Vec<usize> = vec![63, 64, 65, 127, 128, 129, 255, 256, 257, 511, 512, 513];
+    if th {
+        ladder.extend([1023, 1024, 1025, 3000].iter());
+    }
+    for (i, &n) in ladder.iter().enumerate() {
+        run += 1;
+        next_id += 1;
+        let kind: &'static str = if i % 2 == 0 { "cls" } else { "reg" };
+        let p = r.gen_range(1..=2);
+        let distinct = r.gen_bool(0.5);
+        let mut d = gen_data(&mut r, next_id, kind, n, p, distinct);
+        d.family = "ladder";
+        // a batch of queries whose length, together with the training rows, is another rung
+        let nq = ladder[(i + 4) % ladder.len()].min(600);
+        pad_queries(&mut r, &mut d, nq);
+        let mut s = gen_setting(&mut r, kind, p, false, false);
+        s.n_trees = r.gen_range(1..=3);
+        s.keep = true;
+        let s1 = pick_seed(&mut r);
+        emit_quad(&mut out, run, &d, &s, s1, s1.wrapping_add(3));
+    }
     // late re-fits of the earliest keys: the whole session lies in between
     run += 1;
     for (d, s, seed) in early.iter() {
         emit_fit(&mut out, run, false, d, s, *seed);
+    }
+    for c in asm_cases.iter() {
+        run += 1;
+        out.emit(assemble(run, c, "ForestAsm"));
     }
     let n = out.finish();
     println!("events={} runs={}", n, run);
@@ -732,12 +998,12 @@ fn chain_nodes(outs: &[Value]) -> Vec<Value> {
     nodes
 }
 
-fn replay_spec(inp: &str, outp: &str) {
-    let cases = read_ndjson(inp);
-    let mut out = Out::create(outp);
-    let mut run = 0i64;
-    for c in cases.iter() {
-        run += 1;
+/// Assemble the forest described by `c` (kind, nTrain, nTrees, keep, y, treePred, mask)
+/// through the public Deserialize, run the real predict / predict_oob on it and return the
+/// event: "ForestObs" (with the model's expectation) or "ForestAsm" (harness-generated
+/// deep chains; no expectation).
+fn assemble(run: i64, c: &Value, ev: &str) -> Value {
+    {
         let kind = c["kind"].as_str().unwrap_or("");
         let n = c["nTrain"].as_u64().unwrap_or(0) as usize;
         let t_n = c["nTrees"].as_u64().unwrap_or(0) as usize;
@@ -772,7 +1038,7 @@ fn replay_spec(inp: &str, outp: &str) {
                     "min_samples_split": 2, "n_trees": t_n, "m": null, "keep_samples": keep, "seed": 0},
                 "trees": trees, "classes": classes_f, "samples": samples});
             match serde_json::from_value::<RandomForestClassifier<f64>>(fj) {
-                Ok(f) => ("ok", observe_cls(&f, t_n, keep, &x, &x, &y).obs),
+                Ok(f) => ("ok", observe_cls(&f, t_n, keep, &x, &x, &y, false).obs),
                 Err(e) => {
                     eprintln!("cannot assemble a classifier forest: {}", e);
                     std::process::exit(2);
@@ -793,14 +1059,29 @@ fn replay_spec(inp: &str, outp: &str) {
                     "min_samples_split": 2, "n_trees": t_n, "m": null, "keep_samples": keep, "seed": 0},
                 "trees": trees, "samples": samples});
             match serde_json::from_value::<RandomForestRegressor<f64>>(fj) {
-                Ok(f) => ("ok", observe_reg(&f, t_n, keep, &x, &x, &y).obs),
+                Ok(f) => ("ok", observe_reg(&f, t_n, keep, &x, &x, &y, false, false).obs),
                 Err(e) => {
                     eprintln!("cannot assemble a regressor forest: {}", e);
                     std::process::exit(2);
                 }
             }
         };
-        out.emit(json!({"run": run, "ev": "ForestObs", "status": status, "obs": obs, "expect": expect}));
+        if ev == "ForestObs" {
+            json!({"run": run, "ev": ev, "status": status, "obs": obs, "expect": expect})
+        } else {
+            json!({"run": run, "ev": ev, "status": status, "obs": obs,
+                   "asked": {"y": c["y"], "treePred": c["treePred"], "mask": c["mask"]}})
+        }
+    }
+}
+
+fn replay_spec(inp: &str, outp: &str) {
+    let cases = read_ndjson(inp);
+    let mut out = Out::create(outp);
+    let mut run = 0i64;
+    for c in cases.iter() {
+        run += 1;
+        out.emit(assemble(run, c, "ForestObs"));
     }
     let n = out.finish();
     println!("events={} runs={}", n, run);
@@ -838,7 +1119,8 @@ fn replay_file(inp: &str, outp: &str) {
                             .collect()
                     })
                     .unwrap_or_default();
-                let d = Data { id: run as usize, xden, x: rows(&i["X"]), xq: rows(&i["Xq"]), y };
+                let relative = i["relative"].as_bool().unwrap_or(false);
+                let d = Data { id: run as usize, xden, x: rows(&i["X"]), xq: rows(&i["Xq"]), y, relative, family: "replay" };
                 let opt = |v: &Value| -> Option<i64> { v.as_i64().filter(|&x| x >= 0) };
                 let s = Setting {
                     kind,
@@ -853,6 +1135,14 @@ fn replay_file(inp: &str, outp: &str) {
                 let seed: u64 = i["seed"].as_str().and_then(|t| t.parse().ok()).unwrap_or(0);
                 emit_fit(&mut out, run, true, &d, &s, seed);
                 emit_fit(&mut out, run, false, &d, &s, seed);
+            }
+            "ForestAsm" => {
+                let mut c = e["asked"].clone();
+                for k in ["kind", "nTrain", "nTrees", "keep"].iter() {
+                    c[*k] = e["obs"][*k].clone();
+                }
+                run += 1;
+                out.emit(assemble(run, &c, "ForestAsm"));
             }
             "ForestObs" => {
                 let mut c = e["expect"].clone();
